@@ -223,6 +223,42 @@ type vCase struct {
 	toks          map[string][]vTok             // top-level key -> token list the value was rendered from
 	tokOnly       bool
 	kind          string
+	loc           []int // location id per entry of srcs (nil: all distinct)
+}
+
+// vRepeat makes some locations occur again later in the URI list (adjacent and non-adjacent), up to 5 entries;
+// keepLast: never after the last entry
+func vRepeat(c *vCase, rnd *rand.Rand, keepLast bool) {
+	if len(c.srcs) == 0 {
+		return
+	}
+	loc := make([]int, len(c.srcs))
+	for i := range loc {
+		loc[i] = i
+	}
+	extra := 1 + rnd.IntN(2)
+	for e := 0; e < extra && len(c.srcs) < 5; e++ {
+		limit := len(c.srcs)
+		if keepLast {
+			limit--
+		}
+		if limit < 1 {
+			break
+		}
+		j := rnd.IntN(limit)
+		pos := j + 1
+		if rnd.IntN(3) > 0 {
+			pos = j + 1 + rnd.IntN(limit-j)
+		}
+		srcs := append([]any{}, c.srcs[:pos]...)
+		srcs = append(srcs, vClone(c.srcs[j]))
+		srcs = append(srcs, c.srcs[pos:]...)
+		nl := append([]int{}, loc[:pos]...)
+		nl = append(nl, loc[j])
+		nl = append(nl, loc[pos:]...)
+		c.srcs, loc = srcs, nl
+	}
+	c.loc = loc
 }
 
 var vSchemes = []string{"env", "file", "ab"}
@@ -419,12 +455,23 @@ func (c *vCase) run(out *vOut, idx int) {
 		p := &vProv{scheme: s, tab: c.provs[s]}
 		factories = append(factories, NewProviderFactory(func(ProviderSettings) Provider { return p }))
 	}
+	// c.srcs is the URI list AS GIVEN to the resolver; c.loc[i] is the location of entry i, so the same location may
+	// occur several times (adjacent or not) and must be merged again each time
 	srcTab := map[string]*vEntry{}
 	uris := make([]string, len(c.srcs))
+	repeats := 0
 	for i, s := range c.srcs {
-		srcTab[strconv.Itoa(i)] = &vEntry{raw: s, isRaw: true}
-		uris[i] = "vsrc:" + strconv.Itoa(i)
+		l := i
+		if c.loc != nil {
+			l = c.loc[i]
+		}
+		if _, dup := srcTab[strconv.Itoa(l)]; dup {
+			repeats++
+		}
+		srcTab[strconv.Itoa(l)] = &vEntry{raw: s, isRaw: true}
+		uris[i] = "vsrc:" + strconv.Itoa(l)
 	}
+	out.Linef("stat repeated_locations %d", repeats)
 	sp := &vProv{scheme: "vsrc", tab: srcTab}
 	factories = append(factories, NewProviderFactory(func(ProviderSettings) Provider { return sp }))
 
@@ -984,6 +1031,24 @@ func vCorpus() []*vCase {
 		c.setYAML("env", "S1", "{env2: \"${env:S2}\"}")
 		c.setYAML("env", "S2", "{value: 123}")
 	})
+	// the same location several times in the URI list: merged again each time, never de-duplicated
+	rep := func(order ...int) {
+		a := map[string]any{"s": 1, "l": []any{1, 2}, "m": map[string]any{"x": 1, "y": "a"}, "only_a": true}
+		b := map[string]any{"s": 2, "l": []any{3}, "m": map[string]any{"x": 9, "z": 0}, "only_b": 1}
+		d := map[string]any{"s": "c", "m": 5}
+		all := []any{a, b, d}
+		c := vNewCase()
+		c.kind = "corpus"
+		for _, i := range order {
+			c.srcs = append(c.srcs, vClone(all[i]))
+			c.loc = append(c.loc, i)
+		}
+		cs = append(cs, c)
+	}
+	rep(0, 1, 0)
+	rep(0, 0, 1)
+	rep(0, 1, 1, 0, 2)
+	rep(2, 0, 2, 1)
 	return cs
 }
 
@@ -1125,6 +1190,9 @@ func vGenCase(idx int, rnd *rand.Rand) *vCase {
 				c.srcs = append(c.srcs, vGenMap(rnd, 4, p))
 			}
 		}
+		if rnd.IntN(5) < 2 {
+			vRepeat(c, rnd, false)
+		}
 	default: // several sources with references, token values on top
 		c.kind = "mixed"
 		vGenProviders(c, rnd, 0.8)
@@ -1137,6 +1205,9 @@ func vGenCase(idx int, rnd *rand.Rand) *vCase {
 		c.toks["k0"] = ts
 		last["k0"] = vRender(ts)
 		c.srcs = append(c.srcs, last)
+		if rnd.IntN(4) == 0 {
+			vRepeat(c, rnd, true)
+		}
 	}
 	return c
 }
